@@ -5,7 +5,10 @@ go 1.26.8
 require (
 	github.com/fxamacker/cbor/v2 v2.9.2
 	github.com/miekg/dns v1.1.72
+	github.com/mycoria/crop v0.3.1
 	github.com/mycoria/mycoria v0.0.0
+	github.com/zeebo/blake3 v0.2.4
+	golang.org/x/crypto v0.54.0
 	pgregory.net/rapid v1.3.0
 )
 
@@ -16,14 +19,11 @@ require (
 	github.com/mitchellh/copystructure v1.2.0 // indirect
 	github.com/mitchellh/reflectwalk v1.0.2 // indirect
 	github.com/mr-tron/base58 v1.3.0 // indirect
-	github.com/mycoria/crop v0.3.1 // indirect
 	github.com/tevino/abool v1.2.0 // indirect
 	github.com/vishvananda/netlink v1.3.1 // indirect
 	github.com/vishvananda/netns v0.0.5 // indirect
 	github.com/x448/float16 v0.8.4 // indirect
-	github.com/zeebo/blake3 v0.2.4 // indirect
 	go4.org/netipx v0.0.0-20231129151722-fdeea329fbba // indirect
-	golang.org/x/crypto v0.54.0 // indirect
 	golang.org/x/exp v0.0.0-20260709172345-9ea1abe57597 // indirect
 	golang.org/x/net v0.57.0 // indirect
 	golang.org/x/sys v0.47.0 // indirect
